@@ -165,8 +165,9 @@ def check_function(chk, f, maskname="Smask", specname="S"):
             chk.bad("D1", (f, st), f"ordering of `{A.short(ordered, 50)}`", f"the index array orders `{A.short(ordered, 50)}`, which does not "
                     f"depend on the spectrum `{specname}`", facts)
         elif block is not None:
-            bt = A.text(block)
-            ot = A.text(A.Inliner(f.node).expand(ordered))
+            inl_ = A.Inliner(f.node)
+            bt = A.text(inl_.expand(block))
+            ot = A.text(inl_.expand(ordered))
             chk.verdict("D1", (f, st), f"block addressed `{bt}` == block ordered", True if bt in ot else False,
                         f"the mask is written in block `{bt}` but the ordering was computed for `{A.short(ordered, 60)}` (another block)", facts)
         # D2: K = min(limit, count above tolerance)
@@ -298,15 +299,21 @@ def check_knob_dispatch(chk, f, knobs):
                         out |= value_knobs(d, seen)
         return out
     n = 0
+    sites = []
     for x in A.walk_local(f.node, include_self=False):
-        if not isinstance(x, ast.IfExp):
-            continue
-        V = _isinstance_dict_subject(x.test)
+        if isinstance(x, ast.IfExp):
+            sites.append((x.test, [x.body, x.orelse], A.stmt_of(x, o.parent)))
+        elif isinstance(x, ast.If) and len(x.body) == 1 and len(x.orelse) == 1 and all(isinstance(b_, ast.Assign) for b_ in (x.body[0], x.orelse[0])) \
+                and A.text(x.body[0].targets[0]) == A.text(x.orelse[0].targets[0]):
+            sites.append((x.test, [x.body[0].value, x.orelse[0].value], x))
+    for test, branches, st in sites:
+        V = _isinstance_dict_subject(test)
         if V is None or V not in knobs:
             continue
         n += 1
-        used = value_knobs(x, set())
-        st = A.stmt_of(x, o.parent)
+        used = set()
+        for br in branches:
+            used |= value_knobs(br, set())
         foreign = sorted(used - {V})
         chk.verdict("D6", (f, st), st, False if foreign else True,
                     f"the conditional tests whether `{V}` is a per-sector dict but selects a value of `{', '.join(foreign)}`: "
